@@ -647,9 +647,30 @@ def _args_in(e, facts, depth):
     return out
 
 
+def thorough_domain():
+    """thorough tier: the class domain plus seeded random doubles over the whole exponent range and integer boundaries"""
+    import os
+    import random
+
+    rnd = random.Random(int(os.environ.get("VERIF_SEED", "0") or 0))
+    extra = []
+    for _ in range(28):
+        m = rnd.random() + 1.0
+        e = rnd.randint(-1074, 1023)
+        v = m * (2.0 ** e) if e > -1000 else 5e-324 * rnd.randint(1, 1 << 20)
+        extra.append(v if rnd.random() < 0.5 else -v)
+    extra += [2.0**53, 2.0**53 + 2.0, -(2.0**63), 2.0**63, 0.5, 1.5, -1.5, 1e-300, 1.7976931348623157e308]
+    return F_DOMAIN + extra
+
+
 def run(ck, facts, cg, anchors, tier):
     bl, wl, vd, prod = anchors
     FACTS[0] = facts
+    global F_DOMAIN, I_DOMAIN
+    if tier == "thorough":
+        F_DOMAIN = thorough_domain()
+        I_DOMAIN = I_DOMAIN + [3, -3, 2**31, -(2**31), 2**53, 12345678901234]
+    ck.setcount("f64_domain_points", len(F_DOMAIN))
     ck.rule(
         R,
         "for every MIR operator lowered to a single VM register instruction, the value the VM arm stores and the value "
